@@ -405,8 +405,12 @@ private:
                        , int         plane
                        )
    {
-      if(  dst_view.width()  != this->_info._width
-        || dst_view.height() != this->_info._height
+      // decided by the requested region, not by the size of the destination: a view as large as the
+      // image that is given a smaller region received the whole image
+      if(  this->_settings._top_left.x != 0
+        || this->_settings._top_left.y != 0
+        || this->_settings._dim.x != static_cast< std::ptrdiff_t >( this->_info._width  )
+        || this->_settings._dim.y != static_cast< std::ptrdiff_t >( this->_info._height )
         )
       {
           // read a subimage
